@@ -280,15 +280,51 @@ pub fn a_run(c: &Case) -> Outcome {
     Ok(obs)
 }
 
+/// scope of the bounded-exhaustive sub-check: every labelled digraph on 1..=4 nodes and every
+/// labelled undirected graph on 1..=5 nodes (6 in the thorough tier), loops included
+fn scope(tier: Tier) -> (usize, usize) {
+    if tier == Tier::Quick {
+        (4, 5)
+    } else {
+        (4, 6)
+    }
+}
+const ENUM_P: u64 = 6 * 4;
+fn enum_count_d(tier: Tier) -> u64 {
+    small_graph_count(scope(tier).0, 0) * ENUM_P
+}
+fn enum_make_d(tier: Tier, i: u64) -> Case {
+    let (dir, n, mask) = small_graph(i / ENUM_P, scope(tier).0, 0).expect("index within the scope");
+    let p = i % ENUM_P;
+    Case { g: raw_explicit(dir, n, mask, 0), enc: (p % 6) as u8, salt: (i % 251) as u8, root: sel_for((p / 6) as usize % n, n) }
+}
+/// every loop-free labelled digraph on 5 nodes (2^20) x every root, on the plain Graph encoding
+fn enum_count_d5(_tier: Tier) -> u64 {
+    (1u64 << 20) * 5
+}
+fn enum_make_d5(_tier: Tier, i: u64) -> Case {
+    Case { g: raw_explicit_loopless(5, i / 5, 0), enc: 0, salt: 0, root: sel_for((i % 5) as usize, 5) }
+}
+fn enum_count_a(tier: Tier) -> u64 {
+    small_graph_count(0, scope(tier).1) * 6
+}
+fn enum_make_a(tier: Tier, i: u64) -> Case {
+    let (dir, n, mask) = small_graph(i / 6, 0, scope(tier).1).expect("index within the scope");
+    Case { g: raw_explicit(dir, n, mask, 0), enc: (i % 6) as u8, salt: (i % 251) as u8, root: 0 }
+}
+
 pub fn property() -> Property {
     Property {
         id: "C16",
-        rule: "dominators: random directed multigraphs with loops and unreachable parts (1..=9 nodes quick), every root, in Graph / StableGraph+MatrixGraph with vacancies / GraphMap / Csr / adj::List; A dominates B iff B becomes unreachable when A is deleted; immediate_dominator, dominators, strict_dominators, immediately_dominated_by and root compared with that relation; non-trivial = dominator tree of depth >= 2 with a join node whose idom is not a predecessor. articulation points: undirected multigraphs with loops (0..=10 nodes, 1-4 components) in Graph / StableGraph / GraphMap / Csr / MatrixGraph, compared as a set with brute-force vertex deletion; non-trivial = some articulation point and some non-articulation node of degree >= 2; distinct by case fingerprint",
+        rule: "dominators: random directed multigraphs with loops and unreachable parts (1..=9 nodes quick), every root, in Graph / StableGraph+MatrixGraph with vacancies / GraphMap / Csr / adj::List; A dominates B iff B becomes unreachable when A is deleted; immediate_dominator, dominators, strict_dominators, immediately_dominated_by and root compared with that relation; non-trivial = dominator tree of depth >= 2 with a join node whose idom is not a predecessor. articulation points: undirected multigraphs with loops (0..=10 nodes, 1-4 components) in Graph / StableGraph / GraphMap / Csr / MatrixGraph, compared as a set with brute-force vertex deletion; non-trivial = some articulation point and some non-articulation node of degree >= 2; distinct by case fingerprint; bounded-exhaustive sub-checks: dominators on every labelled digraph on 1..=4 nodes (loops included) x 6 encodings x roots and on every loop-free digraph on 5 nodes x every root; articulation points on every undirected graph on 1..=5 nodes (6 thorough) x 6 encodings",
         assumptions: &[],
         both_profiles: false,
         subs: vec![
             sub("dominators/simple_fast", 3_000_000, 50_000_000, d_strategy, d_run),
             sub("articulation_points/brute", 3_000_000, 50_000_000, a_strategy, a_run),
+            sub_enum("dominators/all-small-digraphs", enum_count_d, enum_make_d, d_run),
+            sub_enum("dominators/all-loopfree-digraphs-on-5-nodes", enum_count_d5, enum_make_d5, d_run),
+            sub_enum("articulation_points/all-small-graphs", enum_count_a, enum_make_a, a_run),
         ],
     }
 }
